@@ -607,7 +607,23 @@ def check_main_loop(ctx: Ctx, oid: str):
     _need(ctx, oid, "R16 PAIRED-EFFECTS", f, "restarts follow the Luby schedule: the conflict counter is compared with the current term, then reset; the solver returns to level 0 and reduces the clause database", ["conflicts_since_restart += 1", "if conflicts_since_restart >= next_restart:", "restarts += 1\n                luby_idx += 1\n                next_restart = luby_factor * luby(luby_idx)\n                conflicts_since_restart = 0\n                unassign_to(0)\n                dec_level = 0\n                reduce_db()", "conflicts_since_restart = 0\n    luby_idx = 1\n    next_restart = luby_factor * luby(luby_idx)"])
     _need(ctx, oid, "R16 PAIRED-EFFECTS", f, "every change of the trail in the driver is followed by propagation before the next decision", ["reduce_db()\n            conflict = propagate()\n            continue", "unassign_to(0)\n            dec_level = 0\n            conflict = propagate()\n            continue", "conflict = propagate()\n    if conflict >= 0:\n        return Result(None, 0, decisions, propagations, Status.INFEASIBLE)"])
     _need(ctx, oid, "R1 STATUS-GUARD", f, "a model is recorded when no unassigned variable is left; with the requested number reached it is returned at once", ["var = pick_var()\n        if var == 0:", "all_solutions.append(sol)\n            if len(all_solutions) >= solution_limit:\n                if solution_limit == 1:\n                    return Result(sol, len(sol), decisions, propagations)\n                return Result(sol, len(sol), decisions, propagations, solutions=tuple(all_solutions))"])
-    _need(ctx, oid, "R1 STATUS-GUARD", f, "trivial inputs: no clause or no variable -> the empty model", ["if not clauses:\n        return Result({}, 0, 0, 0)", "if n_vars == 0:\n        return Result({}, 0, 0, 0)"])
+    # trivial answers: the empty model is right only if there is nothing to satisfy - no clause (an empty clause is
+    # unsatisfiable) and no assumption
+    cfg = cfg_of(f.node)
+    gv = GuardView(cfg)
+    unit_loop = [n for n in own_nodes(f.node) if isinstance(n, ast.For) and "enumerate(clauses)" in ast.unparse(n.iter)]
+    for s_ in result_sites(f):
+        if ast.unparse(s_.arg("solution")) != "{}" or s_.node.loop is not None:
+            continue
+        at = gv.guard_atoms(s_.node, stable_only=False)
+        no_clause = "F:clauses" in at
+        no_assumption = "F:assumptions" in at or not any(True for _ in [0] if "assumptions" in ast.unparse(f.node.args))
+        if no_clause:
+            ctx.ob(oid, "R1 STATUS-GUARD", f, "the empty model for an empty clause list is given only when there is no assumption either", "F:assumptions" in at, f"{sorted(at)}: with assumptions the answer must agree with them (or be INFEASIBLE when they contradict each other)", node=s_.call)
+        else:
+            gated = bool(unit_loop) and cfg.dominates(cfg.stmt_node_containing(unit_loop[0].iter), s_.node)
+            ctx.ob(oid, "R14 GATE", f, "the empty model for a variable-free formula is given only after the empty-clause test", gated, "a formula that consists of empty clauses has no variables and no model: the shortcut for `n_vars == 0` answers OPTIMAL {} before the ingest loop could reject the empty clause", node=s_.call)
+    _need(ctx, oid, "R1 STATUS-GUARD", f, "trivial inputs: no clause and no assumption, or no variable -> the empty model", ["if not clauses and (not assumptions):\n        return Result({}, 0, 0, 0)", "if n_vars == 0:\n        return Result({}, 0, 0, 0)"])
     _need(ctx, oid, "R16 PAIRED-EFFECTS", f, "unit clauses are asserted at level 0 with their clause as reason; a contradicting one makes the formula infeasible", ["for lit, idx in unit_clauses:\n        var = lit_var(lit)\n        val = lit > 0\n        if vals[var] == UNDEF:\n            assign(var, val, idx)\n        elif (vals[var] == 1) != val:\n            return Result(None, 0, 0, 0, Status.INFEASIBLE)"])
     un = ctx.func("sat", "solve_sat.unassign_to")
     _need(ctx, oid, "R16 PAIRED-EFFECTS", un, "undoing an assignment saves its phase and clears its value", ["var = trail.pop()\n        phase[var] = vals[var] == 1\n        vals[var] = UNDEF"])
